@@ -448,8 +448,15 @@ class Compiler:
 
     def _compile_statement(self, node: Node) -> None:
         """Compile a statement."""
-        # Instructions map to the statement they belong to (for error locations)
+        # Instructions map to the statement they belong to (for error locations): what a
+        # compound statement emits after a nested one (a loop's test or update, the code
+        # that follows a function body) belongs to the compound statement again
+        enclosing_loc = self._current_loc
         self._set_loc(node)
+        self._compile_statement_body(node)
+        self._current_loc = enclosing_loc
+
+    def _compile_statement_body(self, node: Node) -> None:
         if isinstance(node, ExpressionStatement):
             self._compile_expression(node.expression)
             self._emit(OpCode.POP)
